@@ -258,10 +258,35 @@ def same_multiset(ctx, A, B, eq=None):
                     ai.remove(cand[0])
                     bj.remove(j)
                     changed = True
-        if len(ai) > 6:
+        # what is left falls apart into independent groups (rows that can only be related to rows of their own group, e.g. one
+        # lane, one sample): each group is searched on its own
+        comps, seen_i = [], set()
+        for i0 in ai:
+            if i0 in seen_i:
+                continue
+            ci, cj, todo = {i0}, set(), [("i", i0)]
+            while todo:
+                side, k = todo.pop()
+                if side == "i":
+                    for j in bj:
+                        if rel[k][j] is not False and j not in cj:
+                            cj.add(j)
+                            todo.append(("j", j))
+                else:
+                    for i in ai:
+                        if rel[i][k] is not False and i not in ci:
+                            ci.add(i)
+                            todo.append(("i", i))
+            seen_i |= ci
+            comps.append((sorted(ci), sorted(cj)))
+        parts = []
+        for ci, cj in comps:
+            if len(ci) != len(cj) or len(ci) > 6:
+                return False
+            parts.append(ctx.any(*[ctx.all(*[rel[i][j] for i, j in zip(ci, p)]) for p in itertools.permutations(cj)]))
+        if len({j for _ci, cj in comps for j in cj}) != len(bj):
             return False
-        alts = [ctx.all(*[rel[i][j] for i, j in zip(ai, p)]) for p in itertools.permutations(bj)] if ai else [True]
-        return ctx.all(ctx.all(*forced), ctx.any(*alts))
+        return ctx.all(ctx.all(*forced), *parts)
     if not rest:
         return True
     if len(rest) > 6:
